@@ -1,7 +1,7 @@
 (* C06 - multi-hop packets: at-most-once delivery and forwarding, shrinking hop budget.
    Audited statements only; proofs in Proofs/LocTProofs.v and Proofs/RouterProofs.v. *)
 From FlexVerif Require Import Base.Prelude Base.Bits Model.LocT Model.Wire Model.Router Proofs.LocTProofs Proofs.RouterProofs
-  Proofs.ForwardCopy.
+  Proofs.ForwardCopy Proofs.FloodProofs.
 
 (* -- duplicate detection: once (SO, SN) was accepted, a duplicate is rejected for as long as fewer than
       itsGnDPLLength other sequence numbers of SO have been accepted since -- *)
@@ -112,6 +112,17 @@ Theorem C06_cbf_sent_at_most_once : forall s key,
   cbf_fire (fst (cbf_fire s key)) key = (fst (cbf_fire s key), []).
 Proof. exact cbf_sent_at_most_once. Qed.
 Print Assumptions C06_cbf_sent_at_most_once.
+
+(* -- every flood terminates: one reception yields at most one forwarded copy, with RHL - 1 >= 1 (above), so for
+      any topology with at most K stations in range, any station states and any timer order, an execution that
+      starts from the frames in pool p delivers at most  sum over p of (K+1)^RHL  frames -- *)
+Theorem C06_at_most_one_forward_per_reception : forall m s now g pkt, (count_fwd (snd (rx m s now g pkt)) <= 1)%nat.
+Proof. exact at_most_one_forward. Qed.
+Print Assumptions C06_at_most_one_forward_per_reception.
+
+Theorem C06_flood_terminates : forall K, 0 <= K -> forall n p p', nsteps K n p p' -> Z.of_nat n <= weight K p.
+Proof. exact flood_bound. Qed.
+Print Assumptions C06_flood_terminates.
 
 (* non-vacuity: a TSB packet with RHL 3 from another station is forwarded with RHL 2 *)
 Example C06_example :
